@@ -66,12 +66,34 @@ func checkPkg(fset *token.FileSet, path, name, src string, imp types.Importer) (
 // LoadInProcess type-checks and SSA-builds an import-free (except rt) subject program.
 // mainSrc must be a complete file of package main importing gen.RTPath.
 func LoadInProcess(mainSrc string, rtSrc string) (*Loaded, error) {
+	return LoadInProcessExtra(mainSrc, rtSrc, nil)
+}
+
+// ExtraPkg is an additional source package of an in-process subject (it may import rt only).
+type ExtraPkg struct{ Path, Src string }
+
+// LoadInProcessExtra is LoadInProcess with additional library packages importable from main.
+func LoadInProcessExtra(mainSrc string, rtSrc string, extra []ExtraPkg) (*Loaded, error) {
 	fset := token.NewFileSet()
 	rtPkg, rtFile, rtInfo, err := checkPkg(fset, gen.RTPath, "rt.go", rtSrc, mapImporter{})
 	if err != nil {
 		return nil, fmt.Errorf("rt: %w", err)
 	}
 	imp := mapImporter{gen.RTPath: rtPkg}
+	type built struct {
+		pkg  *types.Package
+		file *ast.File
+		info *types.Info
+	}
+	var extras []built
+	for _, e := range extra {
+		p, f, i, err := checkPkg(fset, e.Path, strings.ReplaceAll(e.Path, "/", "_")+".go", e.Src, imp)
+		if err != nil {
+			return nil, fmt.Errorf("%s: %w", e.Path, err)
+		}
+		imp[e.Path] = p
+		extras = append(extras, built{p, f, i})
+	}
 	var syncPkg *types.Package
 	var syncFile *ast.File
 	var syncInfo *types.Info
@@ -92,6 +114,9 @@ func LoadInProcess(mainSrc string, rtSrc string) (*Loaded, error) {
 		prog.CreatePackage(syncPkg, []*ast.File{syncFile}, syncInfo, true)
 	}
 	rt := prog.CreatePackage(rtPkg, []*ast.File{rtFile}, rtInfo, true)
+	for _, b := range extras {
+		prog.CreatePackage(b.pkg, []*ast.File{b.file}, b.info, true)
+	}
 	m := prog.CreatePackage(mPkg, []*ast.File{mFile}, mInfo, false)
 	prog.Build()
 	return &Loaded{Prog: prog, Main: m, RT: rt, Fset: fset}, nil
